@@ -9,8 +9,9 @@ PROP = {
         "encoding/xml's Decoder with xmlToMapParser/xmlSeqToMapParser is an abstract deterministic consumer of ReadByte results that tests the error before the byte (Decoder.getc); in the correspondence its behaviour is a table filled on every run by running the same exported functions over a bytes.Reader (an io.ByteReader, so no mxj adaptor is involved)",
         "decoder consumption: on a well-formed document followed by anything the decoder stops right after the root element's closing '>' (hypothesis stops_at of the theorems; checked on every clean case: bytes handed out == end offset of the document)",
         "NewMapJson is an oracle str -> result (table filled by the real function); the adaptors and getJson always pass one-byte buffers to Read (a Read call with any other buffer length makes the case fail)",
+        "the XML theorems are stated for schedules without 100 consecutive (0, nil) reads: byteReader / teeReader then return io.ErrNoProgress (as bufio.Reader does); such scripts are generated for the correspondence (ErrNoProgress path) and excluded from the oracle",
         "an *os.File delivers every byte with a nil error and then (0, io.EOF)",
     ],
-    "level_text": "Machine-checked theorems over the executable model of the two single-byte adaptors, getJson, NewMapXmlReader[Raw], NewMapXmlSeqReader[Raw], NewMapJsonReader[Raw], the four bulk handlers and the file readers, for all schedules and all streams; the defects of the pinned tree are proved as _refuted witnesses and the positive theorems carry the exact side condition that excludes them; the model is tied to the current /repo by differential correspondence under scripted io.Readers and a Go-side oracle evaluates the property statement on the implementation.",
-    "level_note": "Trusted: Coq kernel + vm_compute; the XML decoder is the environment (table oracle, consumption assumption validated per run); hand-written model validated by correspondence on every run; six recorded findings (data with io.EOF, (0,nil) reads, trailing escaped backslash, JSON raw blanks, empty objects skipped, lone closing brace panic).",
+    "level_text": "Machine-checked theorems over the executable model of the two single-byte adaptors, getJson, NewMapXmlReader[Raw], NewMapXmlSeqReader[Raw], NewMapJsonReader[Raw], the four bulk handlers and the file readers, for all legal schedules (every split, final data with io.EOF or before it, interspersed (0,nil) reads) and all streams; the model follows the repaired code (a2b77a7, 419ac2a, fd230a2, 9f7e6ef) and the former _refuted statements are now positive theorems; the model is tied to the current /repo by differential correspondence under scripted io.Readers and a Go-side oracle evaluates the property statement on the implementation.",
+    "level_note": "Trusted: Coq kernel + vm_compute; the XML decoder is the environment (table oracle, consumption assumption validated per run); hand-written model validated by correspondence on every run; one recorded finding (the raw value of the JSON Raw readers omits blanks); side condition of the XML theorems: fewer than 100 consecutive (0,nil) reads (witness C13_adaptor_no_progress).",
 }
